@@ -127,15 +127,29 @@ def _hist(claim, props, monitors):
     return {"claim": claim, "props": props, "modes": ["hist"], "level": "proof", "nontrivial": {"hist": _hist_nontrivial},
             "rule": HIST_RULE, "assumptions": HIST_ASSUME, "trusted_base": HIST_TB, "monitors": monitors}
 
+def _exec_nontrivial(case, impl):
+    t = case.split()
+    if t[0] in ("showinc", "lastline"):
+        return len(t) > 1 and len(t[1]) > 4
+    return True
+
 PROPS = {
+    "C16": {"claim": "PARTIAL by nature. Proved in Lean 4 (for all inputs): wait-status decoding (exit 0 = success, any other code = failure, a signal = failure, SIGINT = interruption, with or without core flag); output accumulation is independent of how reads cut the stream; DumbConsoleProgress prints one piece per callback, a finished command's whole output as one contiguous block exactly once (for every interleaving of starts and finishes), failures never hidden; /showIncludes filtering = payloads of the note lines in order + all other lines re-joined (F10 repaired). These models are compared with the real helpers on exhaustive token strings. OBSERVED, not provable here (real /bin/sh through the real run_command in-process, and the real n2 binary): the command string reaches sh -c unchanged (same output as asking sh directly, 15 shell idioms), exit codes 0..255 and 9 signals (SIGPIPE is excluded: Rust programs ignore it and the disposition is inherited, so it does not terminate the shell), output of 0..1 MB on stdout/stderr/both around the 4 KiB read buffer and 64 KiB pipe size, stdin = /dev/null, no inherited descriptors (own files held open, 4 commands at once), cwd, rspfile content byte-exact and output directories created, -j 1..16 with 6 commands printing 0..70000 bytes each printed once and contiguously, process exit status.",
+            "props": ["C16"], "modes": ["exec"], "level": "proof", "needs_n2bin": True,
+            "nontrivial": {"exec": _exec_nontrivial},
+            "rule": "every string of up to 5 (quick) / 6 tokens over {a, LF, CR, blank, 'Note: including file: ', 'Note: '} for the filters; 12 (quick) / all 256 exit codes; 9 signals; 8-12 output sizes x {stdout, stderr, both}; 15 command strings; environment probes; 12-20 runs of the real binary with 6 commands at -j 1/4/16 (1..16) x 4 output sizes; rspfile / exit-status / descriptor-leak projects",
+            "assumptions": COMMON_ASSUME + ["posix_spawn, pipe2(O_CLOEXEC), waitpid, /bin/sh, /proc: observed on this kernel only; signal delivery to n2 itself (Ctrl-C) is not exercised; FancyConsoleProgress (tty) printing is not modelled (C20 covers its pure helpers)"],
+            "trusted_base": ["task.rs extract_showincludes/find_last_line, the status cascade of process_posix.rs::run_command, progress_dumb.rs modelled; posix_spawn/pipe/waitpid/threads observed"],
+            "explanation": "logic proved in Lean and tied to the code by correspondence; operating-system behaviour observed on the real run_command and the real binary (cannot be exhibited by a Lean model)",
+            "monitors": ["noNoteShown", "zeroIsSuccess", "signalIsNotSuccess", "sigintInterrupts"]},
     "C02": _hist("Lean 4 theorems about the manifest rule: a non-phony step is judged clean only if no named file is missing, a completion record exists and its manifest equals the manifest of the files as they are now; the check is read-only; record_finished appends exactly one record carrying the manifest of the re-stat()ed post-command state, or nothing when a file is missing; the manifest names exactly dirtying inputs, discovered deps, outputs (with mtimes), command line and rspfile. The composed world model (loader + log + scheduler + dirtiness + command semantics) reproduces the real n2 on every generated history (traces, results, whole tree), and the monitors cleanEq (contents of the requested closure = from-scratch build, computed by the Lean model) and logAgrees are evaluated on the implementation's tree and log.",
                  ["C02"], ["cleanEq", "logAgrees"]),
-    "C03": _hist("Lean 4 theorems: a step is judged dirty only if a named file is missing, or it has no record, or the recorded manifest differs (and is clean when none of these holds); phony steps never run; order-only/validation inputs do not enter the manifest; the manifest depends on the stat cache only through the mtimes of the files it names (an upstream re-run that keeps timestamps dirties nothing); -t restat touches no file. Tied by exact agreement of the world model with the real n2 on histories; monitors noopAfterSuccess (an invocation right after a successful one of the same targets starts nothing and reports 0 tasks, whenever every named file and reported dependency exists) and restatRunsNothing on the implementation's traces.",
-                 ["C03"], ["noopAfterSuccess", "restatRunsNothing"]),
+    "C03": _hist("Lean 4 theorems: a step is judged dirty only if a named file is missing, or it has no record, or the recorded manifest differs (and is clean when none of these holds); phony steps never run; order-only/validation inputs do not enter the manifest; the manifest depends on the stat cache only through the mtimes of the files it names (an upstream re-run that keeps timestamps dirties nothing); -t restat touches no file. Tied by exact agreement of the world model with the real n2 on histories; monitors runSetAsPredicted (per invocation the set of started commands equals the set the Lean model of the manifest rule predicts from the tree and the log), noopAfterSuccess (an invocation right after a successful one of the same targets starts nothing and reports 0 tasks, whenever every named file and reported dependency exists) and restatRunsNothing on the implementation's traces.",
+                 ["C03"], ["noopAfterSuccess", "restatRunsNothing", "runSetAsPredicted"]),
     "C09": _hist("Lean 4 theorems: record_finished REPLACES the discovered-dependency list by what it keeps of the new report — canonicalised, without duplicates, without declared dirtying inputs (order-only inputs may stay); a vanished discovered dependency yields 'dirty', never an error; discovered dependencies are not in the scheduler's ordering inputs. Tied by the world model (real depfiles written and parsed, real /showIncludes filtering) and the monitor logAgrees: the implementation's log bytes decode to exactly the model's records by name (outputs, dependency lists) with the same hash-equality pattern.",
                  ["C09"], ["logAgrees"]),
     "C17": _hist("Lean 4 theorems about run::build: a reload is requested exactly when the manifest phase succeeded having run n != 0 commands (then no failure is on record and nothing is pending); if the phase does not succeed, build returns there (never success, never reload); after a reload the rest is a function of the reloaded graph and a fresh Work only; with an up-to-date manifest phase 2 continues on the same scheduler state. Tied by histories with a generator step that copies build.ninja.in (edited by the history) — the model reloads its own manifest text; monitors regenFirst (commands of the first Work lie in the manifest's producer cone when a reload follows) and reloadIffRan on the implementation's traces.",
-                 ["C17"], ["regenFirst", "reloadIffRan"]),
+                 ["C17"], ["regenFirst", "reloadIffRan", "wantedFromNewText"]),
     "C10": {"claim": "Lean 4 theorems about the parser/loader model: the section counts of every parsed build line partition its path lists in declared order for all emptiness patterns (proof through the monadic parser by bind inversion); reading further sections only appends; one file id per declared path; adjacent/empty literal parts left by escapes and continuations evaluate like their concatenation. The whole-file round trip parse∘render is validated, not yet proved: the real loader and the model agree on every generated manifest and the monitor spellingIndependent (plain vs noisy spelling load to the same graph, line numbers masked) is evaluated in Lean on the implementation's dumps.",
             "props": ["C10"], "modes": ["load"], "level": "proof", "nontrivial": {"load": _load_nontrivial},
             "rule": LOAD_RULE, "assumptions": LOAD_ASSUME, "trusted_base": LOAD_TB,
